@@ -2,6 +2,7 @@
 Renderer for C header file.
 """
 
+import re
 from typing import List, Optional
 
 from bitproto._ast import Alias, Array, BoundDefinition, Constant, Enum, Message
@@ -33,7 +34,11 @@ class BlockProtoDocstring(BlockBindProto[F]):
 
 class BlockIncludeGuard(BlockDeferable[F]):
     def format_proto_macro_name(self) -> str:
-        proto_name = snake_case(self.bound.name).upper()
+        # Follows the name of the generated header, two files that declare the
+        # same proto name would otherwise share an include guard.
+        out_filename = self.formatter.format_out_filename(self.bound, extension="")
+        out_basename = re.sub(r"[^0-9A-Za-z_]", "_", out_filename[: -len("_bp")])
+        proto_name = snake_case(out_basename).upper()
         return f"__BITPROTO__{proto_name}_H__"
 
     @override(Block)
